@@ -29,7 +29,7 @@ impl<S: Signal> Signal for Counted<S> {
 }
 
 #[derive(Clone, Copy, Debug, PartialEq)]
-enum Op { Next, Frames(usize), Drain, Until, Look }
+enum Op { Next, Frames(usize), Drain, Until, Look, Nth(usize) }
 
 #[derive(Clone, Debug)]
 struct Ob { out: Vec<Option<i32>>, pulls: u64, exhausted: bool }
@@ -51,6 +51,8 @@ where
             Op::Next => vec![Some(b.next())],
             Op::Frames(k) => { let mut it = b.next_frames(); (0..k).map(|_| it.next()).collect() }
             Op::Drain => b.next_frames().map(Some).collect(),
+            // the batch iterator advanced with `Iterator::nth` (what `skip` / `step_by` call), then dropped
+            Op::Nth(k) => vec![b.next_frames().nth(k)],
             Op::Until => Signal::by_ref(&mut b).until_exhausted().take(limit).map(Some).collect(),
             Op::Look => vec![],
         };
@@ -96,7 +98,7 @@ fn line(c: &Case) -> String {
     for v in &c.src { s.push(' '); s.push_str(&v.to_string()); }
     for op in &c.ops {
         s.push(' ');
-        match op { Op::Next => s.push('N'), Op::Frames(k) => s.push_str(&format!("F{}", k)), Op::Drain => s.push('D'), Op::Until => s.push('U'), Op::Look => s.push('E') }
+        match op { Op::Next => s.push('N'), Op::Frames(k) => s.push_str(&format!("F{}", k)), Op::Drain => s.push('D'), Op::Until => s.push('U'), Op::Look => s.push('E'), Op::Nth(k) => s.push_str(&format!("T{}", k)) }
     }
     s
 }
@@ -118,7 +120,7 @@ fn oracle(c: &Case, obs: &[Ob], rest: &[i32]) -> Result<u64, (String, String, St
         let got: Vec<i32> = ob.out.iter().filter_map(|x| *x).collect();
         // (1) whatever is yielded continues the stream exactly where the last delivery stopped
         let want: Vec<i32> = (0..got.len()).map(|i| stream(delivered + i)).collect();
-        if got != want {
+        if !matches!(op, Op::Nth(_)) && got != want {
             return Err((format!("op {} ({:?}) did not continue pre-fill ++ source ++ equilibrium at frame {}", k, op, delivered), format!("{:?}", want), format!("{:?}", got)));
         }
         checks += 1;
@@ -152,8 +154,20 @@ fn oracle(c: &Case, obs: &[Ob], rest: &[i32]) -> Result<u64, (String, String, St
                 checks += 3;
             }
             Op::Look => {}
+            Op::Nth(kk) => {
+                // `nth(k)` hands out what the (k+1)-th `next()` of the batch would: the frames before it are
+                // consumed from the batch (delivered to the caller's skip), none are lost or repeated later
+                if have == 0 { pulls += cap as u64; have = cap; }
+                let taken = (kk + 1).min(have);
+                let want_item = if kk < have { Some(stream(delivered + kk)) } else { None };
+                if ob.out != vec![want_item] {
+                    return Err((format!("op {} next_frames().nth({}) is not the frame {} further calls of next() reach", k, kk, kk + 1), format!("{:?}", want_item), format!("{:?}", ob.out)));
+                }
+                have -= taken;
+                delivered += taken;
+            }
         }
-        delivered += got.len();
+        if !matches!(op, Op::Nth(_)) { delivered += got.len(); }
         // (3) the source was pulled one buffer's worth each time the buffer was found empty, and never otherwise
         if ob.pulls != pulls {
             return Err((format!("source pull count after op {} ({:?})", k, op), pulls.to_string(), ob.pulls.to_string()));
@@ -180,7 +194,7 @@ fn case(st: &mut Stream, c: &Case, kind: &str) {
     let r = run_case(c);
     // non-trivial: anything the three doc examples (2 slots, start 0, empty or full pre-fill, 4-frame source,
     // next only or fully drained batches only) never do
-    let partial = c.ops.iter().any(|o| matches!(o, Op::Frames(k) if *k < c.cap));
+    let partial = c.ops.iter().any(|o| matches!(o, Op::Frames(k) if *k < c.cap) || matches!(o, Op::Nth(_)));
     let mixed = c.ops.contains(&Op::Next) && c.ops.iter().any(|o| matches!(o, Op::Frames(_) | Op::Drain));
     let wrapped = c.start + c.prefill.len() > c.cap;
     let ragged = c.src.len() % c.cap != 0;
@@ -193,6 +207,7 @@ fn case(st: &mut Stream, c: &Case, kind: &str) {
         for o in &c.ops { match *o {
             Op::Next => { if have == 0 { r += 1; have = c.cap; } have -= 1; }
             Op::Frames(k) => { if have == 0 { r += 1; have = c.cap; } have -= k.min(have); }
+            Op::Nth(k) => { if have == 0 { r += 1; have = c.cap; } have -= (k + 1).min(have); }
             Op::Drain => { if have == 0 { r += 1; } have = 0; }
             Op::Until => { have = 0; }
             Op::Look => {}
@@ -204,7 +219,7 @@ fn case(st: &mut Stream, c: &Case, kind: &str) {
     if ragged { st.count("source_len_not_multiple_of_cap"); }
     if c.src.is_empty() { st.count("source_empty"); }
     for o in &c.ops {
-        st.count(match o { Op::Next => "op_next", Op::Frames(k) if *k == 0 => "op_next_frames_dropped_undrained", Op::Frames(_) => "op_next_frames_k_steps", Op::Drain => "op_next_frames_collect", Op::Until => "op_until_exhausted", Op::Look => "op_observe" });
+        st.count(match o { Op::Next => "op_next", Op::Frames(k) if *k == 0 => "op_next_frames_dropped_undrained", Op::Frames(_) => "op_next_frames_k_steps", Op::Drain => "op_next_frames_collect", Op::Until => "op_until_exhausted", Op::Look => "op_observe", Op::Nth(_) => "op_next_frames_nth" });
     }
     if r.is_none() { st.count("panic"); }
     st.case(&l, &show(&r), nontrivial, c.ops.len() as u64);
@@ -230,11 +245,11 @@ fn random_ops(rng: &mut Rng, cap: usize, budget: usize) -> Vec<Op> {
                 0..=3 => Op::Next,
                 4..=6 => Op::Frames(rng.usize_below(cap + 2)),
                 7 => Op::Drain,
-                8 => Op::Look,
-                _ => if rng.chance(1, 4) { Op::Until } else { Op::Frames(rng.usize_below(cap + 1)) },
+                8 => if rng.chance(1, 2) { Op::Look } else { Op::Nth(rng.usize_below(cap + 1)) },
+                _ => if rng.chance(1, 4) { Op::Until } else if rng.chance(1, 3) { Op::Nth(rng.usize_below(cap.min(4))) } else { Op::Frames(rng.usize_below(cap + 1)) },
             },
         };
-        used += match op { Op::Next => 1, Op::Frames(k) => k.max(1), Op::Drain => cap, Op::Until => budget, Op::Look => 1 };
+        used += match op { Op::Next => 1, Op::Frames(k) => k.max(1), Op::Nth(k) => k + 1, Op::Drain => cap, Op::Until => budget, Op::Look => 1 };
         ops.push(op);
     }
     if rng.chance(1, 2) { ops.push(Op::Until); if rng.chance(1, 2) { ops.push(Op::Next); ops.push(Op::Look); } }
@@ -260,6 +275,7 @@ pub fn run(a: &Args) {
                     case(&mut st, &mk((0..(total / cap + 2)).map(|_| Op::Drain).collect()), "fixed_batches_fully_drained");
                     case(&mut st, &mk(vec![Op::Look, Op::Until, Op::Look]), "fixed_until_exhausted");
                     case(&mut st, &mk((0..total.min(30)).map(|i| Op::Frames(1 + i % cap.max(1))).collect()), "fixed_partial_batches");
+                    case(&mut st, &mk((0..total.min(30)).flat_map(|i| [Op::Nth(i % (cap + 1)), Op::Next]).collect()), "fixed_batches_advanced_by_nth");
                     for _ in 0..per_cfg {
                         let ops = random_ops(&mut rng, cap, total);
                         case(&mut st, &mk(ops), "random_interleaving");
@@ -296,7 +312,7 @@ pub fn run(a: &Args) {
                     ops.push(match rng.below(8) {
                         0 | 1 => Op::Drain,
                         2 => Op::Frames(rng.usize_below(cap + 3)),
-                        3 => Op::Frames(1 + rng.usize_below(7)),
+                        3 => if rng.chance(1, 2) { Op::Frames(1 + rng.usize_below(7)) } else { Op::Nth(rng.usize_below(cap)) },
                         4 => Op::Frames(cap),
                         5 | 6 => Op::Next,
                         _ => Op::Look,
